@@ -360,24 +360,6 @@ theorem start_noff (env : Env) (n : Nat) (P : PStore) (V : PVol)
 
 -- ------------------------------------------------------------------ the follower's own retry (next notification)
 
-theorem forIn_noop {β : Type} (f : Nat → β → Except Err (ForInStep β)) (st : β)
-    (h : ∀ x, f x st = .ok (.yield st)) : ∀ l : List Nat, forIn l st f = .ok st := by
-  intro l
-  induction l with
-  | nil => rfl
-  | cons a l ih => simp [List.forIn_cons, h, bind, Except.bind, ih]
-
-theorem loop1_two (f : Nat → List Block × Block → Except Err (ForInStep (List Block × Block)))
-    (b b2 xb : Block)
-    (h1 : ∀ x, f x ([], b2) = .ok (.yield ([b2], b)))
-    (h2 : ∀ x, f x ([b2], b) = .ok (.yield ([b, b2], xb)))
-    (h3 : ∀ x, f x ([b, b2], xb) = .ok (.yield ([b, b2], xb))) :
-    ∀ l : List Nat, l.length ≥ 2 → forIn l ([], b2) f = .ok ([b, b2], xb) := by
-  intro l hl
-  match l, hl with
-  | x :: y :: tl, _ =>
-    simp [List.forIn_cons, h1, h2, bind, Except.bind, forIn_noop f _ h3 tl]
-
 /-- the reorganisation path taken by the notification AFTER a missed one: nothing is disconnected,
     the missed block and the new one are connected in one batch -/
 theorem reorg_next (c : Ctx) (s : Store) (best : BlockMeta) (b b2 xb : Block)
@@ -391,14 +373,17 @@ theorem reorg_next (c : Ctx) (s : Store) (best : BlockMeta) (b b2 xb : Block)
          match filterBlock c s1 (readyWallets s c.wallets) b2 with
          | .error e => .error e
          | .ok (s2, c2) => .ok (s2, [], [(b.height, c1), (b2.height, c2)])) := by
+  have ha : alignNew c best.height (b2.height + 1) b2 [] = .ok (xb, [b, b2]) := by
+    have hf : b2.height + 1 = best.height + 1 + 1 + 1 := by omega
+    rw [hf]
+    have l1 : best.height < b2.height := by omega
+    have l2 : best.height < b.height := by omega
+    have l3 : ¬ best.height < xb.height := by omega
+    simp [alignNew, l1, l2, l3, hb, hx, pure, Except.pure]
   unfold reorg
-  simp only [bind, Except.bind, pure, Except.pure]
-  rw [loop1_two _ b b2 xb ?h1 ?h2 ?h3 (List.range (b2.height + 1)) (by simp [hh2])]
-  case h1 => intro x; simp [hh2, hb]
-  case h2 => intro x; simp [hh1, hx]
-  case h3 => intro x; simp [hhx]
-  simp only [hid, ne_eq, not_true_eq_false, if_false]
-  simp only [List.forIn_cons, List.forIn_nil, bind, Except.bind, pure, Except.pure]
+  simp only [bind, Except.bind, pure, Except.pure, ha]
+  simp only [reorgDisconnect, hid, if_true, pure, Except.pure]
+  simp only [connectAll, bind, Except.bind, pure, Except.pure]
   cases h1 : filterBlock c s (readyWallets s c.wallets) b with
   | error e => simp
   | ok r1 =>
